@@ -40,7 +40,7 @@ ASSUMPTIONS = [
     "frequency bundles: non-empty, concatenation = ordered sequence, start times within one bundle span < freq",
 ]
 MIN_NONTRIVIAL = {"quick": 150, "thorough": 2500}
-REQUIRED_COUNTERS = {"find.calls": 400, "membership.calls": 100, "zip.find.calls": 5,
+REQUIRED_COUNTERS = {"interleaved.calls": 50, "find.calls": 400, "membership.calls": 100, "zip.find.calls": 5,
                      "metamorphic.comparisons": 20}
 SHARD_TIMEOUT = {"quick": 900, "thorough": 7200}
 
@@ -313,6 +313,49 @@ def check_membership(rec, fs, reg, layout, files, rng, excl_names, excl_periods,
                       {"why": "len(fileset) disagrees", "got": got, "want": want})
 
 
+def check_interleaved(rec, fs, reg, layout, files, queries, names, periods, case):
+    """Two searches on one FileSet object that overlap in time: the first is consumed lazily
+    (sort=False, no bundling) while a second find / membership test runs, then it is drained."""
+    qs = [q for q in queries if not (q["filters"] and not layout.with_sat)]
+    if len(qs) < 2 or len(reg) < 2:
+        return
+    qa, qb = qs[0], qs[1]
+    if layout.with_sat:
+        qa = dict(qa, filters={"!sat": ["n18", "metop"]})
+        qb = dict(qb, filters=None if qb["filters"] else {"!sat": "xn18"})
+    sa, ea = uniso(qa["start"]), uniso(qa["end"])
+    want = fm.visible(reg, layout, sa or dt.datetime.min, ea or dt.datetime.max, qa["filters"],
+                      names, periods)
+    rec.ev()
+    rec.count("interleaved.calls")
+    sub = dict(case, queries=[qa, qb], interleaved=True)
+    try:
+        gen = fs.find(sa, ea, sort=False, filters=qa["filters"], no_files_error=False)
+        got = []
+        for _ in range(max(1, len(want) // 3)):
+            try:
+                got.append(os.fspath(next(gen)))
+            except StopIteration:
+                break
+        # a second search with other filters and a membership test in between
+        sb, eb = uniso(qb["start"]), uniso(qb["end"])
+        other = [os.fspath(x) for x in fs.find(sb, eb, filters=qb["filters"], no_files_error=False)]
+        want_b = fm.visible(reg, layout, sb or dt.datetime.min, eb or dt.datetime.max,
+                            qb["filters"], names, periods)
+        _ = (files[0]["t0"] in fs) if files else None
+        got += [os.fspath(x) for x in gen]
+    except Exception as exc:
+        rec.violation("find-exception", sub, {"where": "interleaved find", "exception": repr(exc),
+                                              "trace": traceback.format_exc()[-1000:]})
+        return
+    if sorted(got) != sorted(want) or sorted(other) != sorted(want_b):
+        rec.violation("find-wrong-answer", sub,
+                      {"why": "lazily consumed search disturbed by another search on the same object",
+                       "first_missing": [os.path.basename(p) for p in set(want) - set(got)][:4],
+                       "first_extra": [os.path.basename(p) for p in set(got) - set(want)][:4],
+                       "second_ok": sorted(other) == sorted(want_b)})
+
+
 def make_case(layouts, files, names_idx, periods, queries):
     return {"kind": "group", "layouts": [fm.layout_to_json(l) for l in layouts],
             "files": fm._ser_files(files),
@@ -352,6 +395,7 @@ def run_group(rec, rng, case, do_membership=True, do_zip=True):
                     answers.setdefault(qi, []).append((layout.dirs_name, ids))
             if do_membership:
                 check_membership(rec, fs, reg, layout, files, rng, set(names), periods, sub)
+                check_interleaved(rec, fs, reg, layout, files, case["queries"], set(names), periods, sub)
             if do_zip and li == 0 and files:
                 zip_pass(rec, root, reg, layout, files, case["queries"], sub)
         for qi, lst in answers.items():
@@ -379,6 +423,13 @@ def zip_pass(rec, root, reg, layout, files, queries, case):
         args = {}
         if layout.end_style == "cov":
             args["time_coverage"] = layout.coverage
+        znames = sorted(zreg)[::3][:2] if len(zreg) >= 2 else []
+        zperiods = []
+        if len(zreg) >= 4:
+            f = zreg[sorted(zreg)[1]]
+            zperiods = [(f["t0"], f["t1"])]
+        if znames or zperiods:
+            args["exclude"] = list(znames) + list(zperiods)
         fs = FileSet(path="data/" + layout.template, fs=zfs, name="zip", **args)
     except Exception as exc:
         rec.violation("find-zip-exception", case, {"where": "constructor", "exception": repr(exc)})
@@ -387,7 +438,18 @@ def zip_pass(rec, root, reg, layout, files, queries, case):
         if q["filters"] and not layout.with_sat:
             continue
         q = dict(q, only_path=False)
-        check_query(rec, fs, zreg, layout, files, q, set(), [], dict(case, zip=True), tag="zip.find")
+        check_query(rec, fs, zreg, layout, files, q, set(znames), zperiods, dict(case, zip=True),
+                    tag="zip.find")
+    try:
+        want_len = len(fm.visible(zreg, layout, dt.datetime.min, dt.datetime.max, None, set(znames),
+                                  zperiods))
+        if len(fs) != want_len:
+            rec.violation("find-wrong-answer", dict(case, zip=True),
+                          {"why": "len(fileset) on the zip file system disagrees", "got": len(fs),
+                           "want": want_len})
+    except Exception as exc:
+        if not (type(exc).__name__ == "NoFilesError" and want_len == 0):
+            rec.violation("find-zip-exception", case, {"where": "len", "exception": repr(exc)})
     try:
         zfs.close()
     except Exception:
